@@ -395,6 +395,30 @@ impl BigInt
     }
     
     
+    pub fn checked_concat(
+        &self,
+        report: &mut diagn::Report,
+        span: diagn::Span,
+        lhs_size: usize,
+        rhs: &BigInt,
+        rhs_size: usize)
+        -> Result<BigInt, ()>
+    {
+        let total_size = lhs_size.checked_add(rhs_size);
+
+        if total_size.map_or(true, |size| size as u64 >= BIGINT_MAX_BITS)
+        {
+            report.error_span(
+                "value is out of supported range",
+                span);
+
+            return Err(());
+        }
+
+        Ok(self.concat((lhs_size, 0), rhs, (rhs_size, 0)))
+    }
+
+
     pub fn concat(
         &self,
         lhs_slice: (usize, usize),
